@@ -246,6 +246,43 @@ def case_cuts(p):
     return out
 
 
+def case_reads(p):
+    """Large messages (the size of an /accessories document) under coarse segmentations: fixed read sizes, one read per message, whole stream."""
+    seq = p["seq"]
+    stream, sent = _wire(seq)
+    n = len(stream)
+    ends = []
+    pos = 0
+    for m in seq:
+        pos += len(render(dict(m, headers=[tuple(h) for h in m.get("headers", [])], body=bytes(m.get("body", b""))))[0])
+        ends.append(pos)
+    plans = [("whole", [n]), ("per-message", [b - a for a, b in zip([0] + ends, ends)]), ("halves", [n // 2, n - n // 2])]
+    plans += [(f"reads-of-{k}", [k] * (n // k) + ([n % k] if n % k else [])) for k in p["read_sizes"]]
+    plans += [(f"first-{k}-then-rest", [k, n - k]) for k in p["read_sizes"] if k < n]
+    loop = vloop.VirtualLoop().install()
+    out = []
+    trans = 0
+    try:
+        for name, sizes in plans:
+            pr = make_proto(len(sent) + 2)
+            pos = 0
+            try:
+                for k in sizes:
+                    pr.data_received(stream[pos : pos + k])
+                    pos += k
+                    trans += 1
+            except Exception as e:  # noqa: BLE001
+                out.append(("large-stream-segmentation-fails", {"segmentation": name, "stream_bytes": n, "error": f"{type(e).__name__}: {e}"[:200]}))
+                break
+            if observe(pr) != sent:
+                out.append(("large-stream-segmentation-differs", {"segmentation": name, "stream_bytes": n, "got_n": len(observe(pr)), "sent_n": len(sent)}))
+                break
+    finally:
+        loop.shutdown()
+    p["_stats"] = (0, trans, n)
+    return out
+
+
 def case_secure(p):
     """The same parser behind the encrypted transport (where accessories' messages actually arrive): the message sequence is framed by the
     reference framer with the given frame sizes and every segmentation of the *ciphertext* (complete graph for small streams, else every
@@ -263,7 +300,70 @@ def case_secure(p):
     return [("secure:" + sig, det) for sig, det in v]
 
 
-CASES = {"graph": case_graph, "cuts": case_cuts, "secure": case_secure}
+def case_cuts_send(p):
+    """Reads interleaved with the controller's own sends: an EVENT is split at every position (plain: a read boundary; secure: the accessory's
+    block boundary), a request is issued between the two reads with nothing outstanding, then the rest of the EVENT, the response to that
+    request and a second EVENT arrive.  Both events must be delivered and the request must complete with its response."""
+    from vt import vloop
+    from vt.ref import ipacc
+    from vt.ref import crypto as C
+
+    seq = p["seq"]  # [event, response, event]
+    wires, exps = zip(*[render(dict(m, headers=[tuple(h) for h in m.get("headers", [])], body=bytes(m.get("body", b"")))) for m in seq])
+    out = []
+    nrun = 0
+    a2c, c2a = C.det_bytes("c07", "a2c"), C.det_bytes("c07", "c2a")
+    for k in range(1, len(wires[0])):
+        loop = vloop.VirtualLoop().install()
+        try:
+            from aiohomekit.controller.ip.connection import InsecureHomeKitProtocol, SecureHomeKitProtocol
+
+            log = []
+            stub = _StubConn(log)
+            proto = SecureHomeKitProtocol(stub, a2c, c2a) if p.get("secure") else InsecureHomeKitProtocol(stub)
+            net = vloop.SimNet(loop)
+            att = {"t": 0, "hosts": ["h"], "port": 1, "fut": loop.create_future(), "outcome": None}
+            conn = net.accept(att, "h")
+            vloop.MemTransport(loop, proto, att["fut"].result())
+            loop.run_until_idle()
+            if p.get("secure"):
+                framer = ipacc.Framer(a2c, c2a)
+                first = framer.seal_frames(wires[0][:k], [1024])
+                rest = framer.seal_frames(wires[0][k:] + wires[1] + wires[2], [1024])
+                first, rest = b"".join(first), b"".join(rest)
+            else:
+                first, rest = wires[0][:k], wires[0][k:] + wires[1] + wires[2]
+            conn.send(first)
+            loop.run_until_idle()
+            task = loop.create_task(proto.send_bytes(b"GET /x HTTP/1.1\r\nHost: h\r\n\r\n"))
+            loop.run_until_idle()
+            conn.send(rest)
+            loop.run_until_idle()
+            nrun += 1
+            events = [e for e in log if e[0] == "EVENT"]
+            det = {"split_after_bytes": k, "secure": bool(p.get("secure")), "event_framing": seq[0]["framing"], "events_delivered": len(events), "request_done": task.done()}
+            if events != [exps[0], exps[2]]:
+                out.append(("send-between-reads:event-lost-or-altered", det))
+            elif not task.done() or task.cancelled() or task.exception() is not None:
+                out.append(("send-between-reads:request-not-completed-by-its-response", dict(det, err=repr(task.exception())[:120] if task.done() and not task.cancelled() else None)))
+            else:
+                r = task.result()
+                if (r.code, bytes(r.body)) != (exps[1][1], exps[1][3]):
+                    out.append(("send-between-reads:response-differs", det))
+            if not task.done():
+                task.cancel()
+                loop.run_until_idle()
+        except Exception as e:  # noqa: BLE001
+            out.append((f"send-between-reads:raises:{type(e).__name__}", {"split_after_bytes": k, "secure": bool(p.get("secure")), "err": str(e)[:160]}))
+        finally:
+            loop.shutdown()
+        if out:
+            break
+    p["_stats"] = (0, nrun * 3, sum(len(w) for w in wires))
+    return out
+
+
+CASES = {"graph": case_graph, "cuts": case_cuts, "secure": case_secure, "cuts_send": case_cuts_send, "reads": case_reads}
 
 
 def _work(item, seed, tier):
@@ -304,6 +404,15 @@ def run(ctx):
     work.append(("secure", {"mode": "cuts", "seq": [dict(big, body=big["body"] * 3)], "sizes": [1023, 1, 1024]}))
     work.append(("secure", {"mode": "framesplits", "seq": [smallc, ev, nobody]}))
     work.append(("secure", {"mode": "framesplits", "seq": [dict(ev, framing="chunked", chunks=[7, 1, 100]), small]}))
+    huge = dict(big, body=bytes((i * 31) % 256 for i in range(30000)))
+    hugec = dict(bigc, body=b"0\r\n\r\n" * 6000, chunks=[4096, 1, 8191, 300])
+    sizes = [1024, 4096, 16383, 16384, 16385, 32768, 65536] + ([] if ctx.tier == "quick" else [1, 7, 255, 8192, 20000, 50000])
+    work.append(("reads", {"seq": [huge, ev, hugec, ev], "read_sizes": sizes}))
+    work.append(("reads", {"seq": [ev, hugec, huge], "read_sizes": sizes}))
+    evc = dict(ev, framing="chunked", chunks=[7, 1, 100])
+    for sec in (False, True):
+        work.append(("cuts_send", {"seq": [ev, small, ev], "secure": sec}))
+        work.append(("cuts_send", {"seq": [evc, smallc, evc], "secure": sec}))
     if ctx.tier == "thorough":
         work.append(("secure", {"mode": "graph", "seq": [ev, smallc, small], "sizes": [16, 1, 64]}))
         work.append(("secure", {"mode": "graph", "seq": [small, small], "sizes": [1024]}))
